@@ -140,3 +140,181 @@ def run_wire_case(res: dict, params: dict):
     if obs['wire_frames_parsed']:
         res['csigs'].append(f"wire|{obf}|{sorted(sizes)}|{how}|{stop_reading}")
     res['sample'] = {'kind': 'wire', 'result': out.result}
+
+
+# ---------------------------------------------------------------------------------------------------------------
+# inbound frames around the obfuscation switch
+
+SWITCH_MODES = ('obf-D', 'obf-D', 'obf-F', 'obf-P', 'plain-D', 'plain-P', 'obf-D', 'plain-F')
+
+
+class _StubNetwork:
+    """What a connection needs of its network: the two callbacks. Records what is delivered."""
+
+    def __init__(self):
+        self.received: list = []
+        self.states: list = []
+
+    async def on_message_received(self, message, connection):
+        self.received.append(message)
+
+    async def on_state_changed(self, state, connection, close_reason=None):
+        self.states.append((state.name, getattr(close_reason, 'name', None)))
+
+
+def run_switch_case(res: dict, params: dict):
+    """A real ``PeerConnection`` as the listening connection creates it (incoming, obfuscated or not) is fed the
+    byte stream of a remote client through a real ``StreamReader``: the init frame (obfuscated on the obfuscated
+    port), then -- after the library's own steps for an accepted connection (type from PeerInit,
+    ``set_connection_state``: 'D' / 'F' connections stop being obfuscated) -- the frames of that connection type,
+    several back to back in one segment or cut anywhere. The real reader loop has to deliver every frame exactly
+    once, equal to what was sent, in order, and the connection stays CONNECTED. The stream is produced by the
+    reference codec / reference obfuscation, not by the code under test."""
+    from . import refcodec as rc
+    from .c01gen import gen_key
+    from .props import c01
+    seed, i = params['seed'], params['i']
+    rng = random.Random(f"{seed}:C01:switch:{i}")
+    mode = SWITCH_MODES[i % len(SWITCH_MODES)]
+    obf, typ = mode.startswith('obf'), mode[-1]
+    switches = obf and typ in ('D', 'F')
+    cut = rng.choice(['all-at-once', 'init-then-rest', 'init-then-rest', 'random', 'random', 'per-frame', 'tiny'])
+    env = c01._env()
+    if env.broken:
+        res['inconclusive'] = env.broken
+        return
+    from aioslsk.protocol import messages as M, primitives as P
+    from aioslsk.network import connection as C
+    lay = env.lay
+
+    # -- what the remote client sends --------------------------------------------------------------------------
+    init_spec = lay.by_name['PeerInit.Request']
+    init_tree = {'username': rng.choice(['parent', 'u', 'usér 丠', 'x' * 130]), 'typ': typ, 'ticket': rng.choice([0, 1, 2 ** 32 - 1, 77])}
+    init_plain = rc.encode_message(init_spec, init_tree, lay)
+    init_wire = rc.obf_encode(init_plain, gen_key(rng)) if obf else init_plain
+    init_obj = c01._build_message(lay, M, P, init_spec, init_tree)
+    sent_objs, frames, names = [], [], []
+    raw_after = b''
+    ticket = offset = None
+    if typ == 'F':
+        ticket, offset = rng.choice([0, 1, 2 ** 32 - 1, rng.getrandbits(32)]), rng.choice([0, 1, 2 ** 40, 2 ** 64 - 1, rng.getrandbits(48)])
+        raw_after = rng.randbytes(rng.choice([1, 7, 8, 64, 1000]))
+        frames = [ticket.to_bytes(4, 'little'), offset.to_bytes(8, 'little'), raw_after]
+    else:
+        family = 'distributed' if typ == 'D' else 'peer'
+        specs = [s for s in lay.messages if s['family'] == family]
+        n = rng.choice([1, 2, 3, 3, 4, 6, 9])
+        for k in range(n):
+            spec = rng.choice(specs)
+            tree = env.gen.gen_message(spec, seed, 20_000_003 + 50 * i + k)['tree']
+            plain = rc.encode_message(spec, tree, lay)
+            frames.append(rc.obf_encode(plain, gen_key(rng)) if (obf and typ == 'P') else plain)
+            sent_objs.append(c01._build_message(lay, M, P, spec, tree))
+            names.append(spec['name'])
+    rest = b''.join(frames)
+    if cut == 'all-at-once':
+        segments = [init_wire + rest]
+    elif cut == 'init-then-rest':
+        segments = [init_wire, rest]
+    elif cut == 'per-frame':
+        segments = [init_wire] + [f for f in frames if f]
+    else:
+        whole = init_wire + rest
+        hi = 7 if cut == 'tiny' and len(whole) < 3000 else max(8, len(whole) // rng.choice([2, 3, 5, 9]))
+        segments, pos = [], 0
+        while pos < len(whole):
+            step = rng.randint(1, hi)
+            segments.append(whole[pos:pos + step])
+            pos += step
+    viol: list = []
+    obs = {'switch_runs': 0, 'switch_obf_to_plain_runs': 0, 'switch_frames_sent': 0, 'switch_frames_delivered': 0}
+    base = 'wire:inbound:frames-after-obfuscation-switch' if switches else 'wire:inbound:frames-after-init'
+
+    async def main(w: World):
+        stub = _StubNetwork()
+        conn = C.PeerConnection('10.0.0.9', 4321, stub, obfuscated=obf, incoming=True, read_timeout=60)
+        conn.state = C.ConnectionState.CONNECTED
+        reader = conn._reader = asyncio.StreamReader()
+
+        async def feed():
+            for seg in segments:
+                reader.feed_data(seg)
+                await asyncio.sleep(rng.choice([0, 0, 0.001, 0.02, 0.3]))
+        feeder = w.spawn('remote', feed(), name='vf-switch-feed')
+        detail = {'mode': mode, 'cut': cut, 'segments': len(segments), 'segment_sizes': [len(s) for s in segments][:12],
+                  'classes': names, 'frame_sizes': [len(f) for f in frames][:12], 'init': init_tree}
+        # the library's own steps for an accepted connection (Network.on_peer_accepted / _finalize_peer_connection)
+        try:
+            got_init = await asyncio.wait_for(conn.receive_message_object(), 30)
+        except Exception as exc:  # noqa
+            viol.append((base + ':init-not-read', dict(detail, error=repr(exc)[:300])))
+            return detail
+        if type(got_init) is not type(init_obj) or got_init != init_obj:
+            viol.append((base + ':init-not-read', dict(detail, got=repr(got_init)[:300])))
+            return detail
+        conn.username, conn.connection_type = got_init.username, got_init.typ
+        delivered_n = 0
+        problems: dict = {}
+        if typ == 'F':
+            conn.set_connection_state(C.PeerConnectionState.NEGOTIATING_TRANSFER)
+            try:
+                got_ticket = await asyncio.wait_for(conn.receive_transfer_ticket(), 30)
+                got_offset = await asyncio.wait_for(conn.receive_transfer_offset(), 30)
+                got_raw = b''
+                while len(got_raw) < len(raw_after):
+                    chunk = await asyncio.wait_for(conn.receive_data(len(raw_after) - len(got_raw)), 30)
+                    if not chunk:
+                        break
+                    got_raw += chunk
+            except asyncio.TimeoutError:
+                problems['lost'] = 'ticket / offset / data not delivered within 30 virtual seconds'
+            except Exception as exc:  # noqa
+                problems['disconnected'] = repr(exc)[:300]
+            else:
+                delivered_n = 3
+                if (got_ticket, got_offset, got_raw) != (ticket, offset, raw_after):
+                    problems['garbled'] = f'ticket {got_ticket} (sent {ticket}), offset {got_offset} (sent {offset}), ' \
+                                          f'{len(got_raw)} data bytes equal={got_raw == raw_after}'
+        else:
+            conn.set_connection_state(C.PeerConnectionState.ESTABLISHED)      # starts the real reader loop
+            await feeder
+            await settle(5.0)
+            received = list(stub.received)
+            delivered_n = len(received)
+            for k, (a, b) in enumerate(zip(received, sent_objs)):
+                if type(a) is not type(b) or a != b:
+                    problems['garbled'] = f'frame {k} ({names[k]}) delivered as {repr(a)[:300]}'
+                    break
+            if len(received) > len(sent_objs):
+                problems['garbled'] = f'{len(received)} messages delivered for {len(sent_objs)} frames'
+            if len(received) < len(sent_objs):
+                problems['lost'] = f'{len(received)} of {len(sent_objs)} frames delivered'
+        await feeder
+        if conn.state != C.ConnectionState.CONNECTED:
+            problems['disconnected'] = f'connection is {conn.state.name}, state changes {stub.states}'
+        if switches and conn.obfuscated:
+            problems['garbled'] = problems.get('garbled') or 'connection still obfuscated after the switch'
+        obs['switch_runs'] += 1
+        obs['switch_obf_to_plain_runs'] += 1 if switches else 0
+        obs['switch_frames_sent'] += len(frames)
+        obs['switch_frames_delivered'] += delivered_n
+        detail.update(delivered=delivered_n, obfuscated_after=conn.obfuscated, connection_state=conn.state.name)
+        for what, text in problems.items():
+            viol.append((f'{base}:{what}', dict(detail, problem=text)))
+        conn.stop_reader_task()
+        await conn.disconnect(C.CloseReason.REQUESTED)
+        return detail
+
+    out = run_world(f"{seed}:C01:switch:{i}", main, wall_timeout=120)
+    if out.inconclusive:
+        res['inconclusive'] = out.inconclusive
+        return
+    for sig, detail in viol:
+        runner.violation(res, sig, **detail)
+    for sig, detail in safety_net_violations(out):
+        runner.violation(res, 'wire:safety:' + sig, **detail)
+    for k, v in obs.items():
+        runner.add_obs(res, k, v)
+    if obs['switch_frames_delivered']:
+        res['csigs'].append(f"switch|{mode}|{cut}|{len(segments)}|{names}")
+    res['sample'] = {'kind': 'switch', 'result': out.result}
